@@ -41,6 +41,14 @@ type Conn struct {
 	raw   *bufio.Reader // bytes from the socket
 	plain *bufio.Reader // message bytes (decrypted when secure)
 
+	// TLVStyle / StyleRand: see StyleTLV (pairing.go).
+	TLVStyle  string
+	StyleRand interface {
+		Read([]byte) (int, error)
+		Intn(int) int
+		Shuffle(int, func(i, j int))
+	}
+
 	// Events received while waiting for responses, in arrival order.
 	Events []*Message
 
